@@ -409,9 +409,11 @@ fn handle_fixtures_list(path: PathBuf, skip_unused: bool, only_unused: bool) {
     // Canonicalize the path to resolve symlinks and relative components
     let canonical_path = absolute_path.canonicalize().unwrap_or(absolute_path);
 
-    // Create a fixture database and scan the directory
+    // Create a fixture database and scan the directory the way the language server does:
+    // the project's configured exclude patterns apply to the CLI reports too
     let fixture_db = FixtureDatabase::new();
-    fixture_db.scan_workspace(&canonical_path);
+    let config = config::Config::load(&canonical_path);
+    fixture_db.scan_workspace_with_excludes(&canonical_path, &config.exclude);
 
     // Print the tree
     fixture_db.print_fixtures_tree(&canonical_path, skip_unused, only_unused);
@@ -445,9 +447,11 @@ fn handle_fixtures_unused(path: PathBuf, format: &str) {
     // Canonicalize the path to resolve symlinks and relative components
     let canonical_path = absolute_path.canonicalize().unwrap_or(absolute_path);
 
-    // Create a fixture database and scan the directory
+    // Create a fixture database and scan the directory the way the language server does:
+    // the project's configured exclude patterns apply to the CLI reports too
     let fixture_db = FixtureDatabase::new();
-    fixture_db.scan_workspace(&canonical_path);
+    let config = config::Config::load(&canonical_path);
+    fixture_db.scan_workspace_with_excludes(&canonical_path, &config.exclude);
 
     // Get unused fixtures
     let unused = fixture_db.get_unused_fixtures();
